@@ -1,8 +1,350 @@
 package gosym
 
-import "fmt"
+import (
+	"encoding/json"
+	"fmt"
+	"go/ast"
+	"go/token"
+	"go/types"
+	"os"
+	"path/filepath"
+	"sort"
+	"strings"
 
-// PrepareSchedReplay instruments the sources for a schedule-controlled native replay.
-func PrepareSchedReplay(spec *ReplaySpec, dir string, r *RunResult, v *Violation) error {
-	return fmt.Errorf("schedule replay not implemented yet")
+	"golang.org/x/tools/go/packages"
+)
+
+const vschedImport = "github.com/pion/transport/v3/internal/zzvsched"
+
+// PrepareSchedReplay turns a solver model of a goroutine-mode run into a schedule-controlled
+// native replay: (1) the model is re-executed concretely in the engine, which yields the
+// schedule as a sequence of (thread | timer) indices in creation order; (2) the sources of the
+// packages involved are instrumented with a scheduling point before every synchronisation
+// operation the engine treats as one, and with the fake clock/timers; (3) everything is
+// supplied through the go test overlay.
+func PrepareSchedReplay(l *Loaded, spec *ReplaySpec, dir string, r *RunResult, v *Violation, instrDirs []string) error {
+	if err := os.MkdirAll(dir, 0o755); err != nil {
+		return err
+	}
+	keys, err := r.scheduleKeys(v.Values)
+	if err != nil {
+		return err
+	}
+	cfg := r.Cfg
+	cfg.Fixed = v.Values
+	cfg.FixedKeys = keys
+	cfg.Name = r.Cfg.Name + "-concrete"
+	cfg.Workers = 2
+	cfg.Cross = nil
+	cfg.LogDir = ""
+	cfg.Races = false
+	res := Run(l, cfg)
+	if res.ex == nil || res.ex.sched == nil {
+		return fmt.Errorf("concrete re-run failed: %v", res.Inconcl)
+	}
+	sf := map[string]interface{}{"trace": res.ex.sched.Trace, "phases": res.ex.sched.PhaseSteps, "clock0": 0}
+	b, _ := json.MarshalIndent(sf, "", " ")
+	if err := os.WriteFile(filepath.Join(dir, "sched.json"), b, 0o644); err != nil {
+		return err
+	}
+	// did the concrete run fail the same obligation?
+	v.ConcreteConfirmed = false
+	for _, o := range res.Obligations {
+		if o.Kind == v.Ob.Kind && o.Label == v.Ob.Label && o.Result == Sat {
+			v.ConcreteConfirmed = true
+		}
+	}
+	if spec.ExtraOverlay == nil {
+		spec.ExtraOverlay = map[string]string{}
+	}
+	for _, d := range instrDirs {
+		if err := instrumentPackage(l, spec.RepoDir, d, filepath.Join(dir, "instr"), spec.ExtraOverlay); err != nil {
+			return err
+		}
+	}
+	vs, err := os.ReadFile(filepath.Join(spec.RTDir, "vsched.go.txt"))
+	if err != nil {
+		return err
+	}
+	vp := filepath.Join(dir, "zzvsched.go")
+	if err := os.WriteFile(vp, vs, 0o644); err != nil {
+		return err
+	}
+	spec.ExtraOverlay[filepath.Join(spec.RepoDir, "internal", "zzvsched", "zzvsched.go")] = vp
+	spec.SchedRT = true
+	spec.Env = append(spec.Env, "VERIF_SCHED="+filepath.Join(dir, "sched.json"))
+	return nil
+}
+
+// scheduleKeys maps the model's schedule variables to slot identities.
+func (r *RunResult) scheduleKeys(values map[string]string) ([]string, error) {
+	if r.ex == nil || r.ex.sched == nil {
+		return nil, fmt.Errorf("not a goroutine-mode run")
+	}
+	sk := r.ex.sched.SlotKeys
+	out := make([]string, len(sk))
+	for i := range sk {
+		vs, ok := values[fmt.Sprintf("sched!%d", i)]
+		if !ok {
+			out[i] = ""
+			continue
+		}
+		var n int
+		fmt.Sscan(vs, &n)
+		if n >= 0 && n < len(sk[i]) {
+			out[i] = sk[i][n]
+		}
+	}
+	return out, nil
+}
+
+type edit struct {
+	off  int
+	end  int // replace [off,end) (end==off: insertion)
+	text string
+}
+
+var syncMethods = map[string]bool{
+	"(*sync.Mutex).Lock": true, "(*sync.RWMutex).Lock": true, "(*sync.RWMutex).RLock": true, "(*sync.WaitGroup).Wait": true,
+	"(*sync/atomic.Value).Load": true, "(*sync/atomic.Value).Store": true,
+}
+
+func isSyncFunc(full string) bool {
+	if syncMethods[full] {
+		return true
+	}
+	if strings.HasPrefix(full, "(*sync/atomic.") {
+		for _, m := range []string{").Load", ").Store", ").Add", ").CompareAndSwap"} {
+			if strings.HasSuffix(full, m) {
+				return true
+			}
+		}
+	}
+	if strings.HasPrefix(full, "sync/atomic.") {
+		for _, p := range []string{"Load", "Store", "Add", "CompareAndSwap"} {
+			if strings.HasPrefix(strings.TrimPrefix(full, "sync/atomic."), p) {
+				return true
+			}
+		}
+	}
+	return false
+}
+
+var timeNames = map[string]bool{"Now": true, "Since": true, "Until": true, "Sleep": true, "AfterFunc": true, "NewTimer": true, "Timer": true}
+
+// instrumentPackage writes instrumented copies of the package's non-test, non-harness files.
+func instrumentPackage(l *Loaded, repoDir, relDir, outDir string, overlay map[string]string) error {
+	if err := os.MkdirAll(outDir, 0o755); err != nil {
+		return err
+	}
+	var pkg *packages.Package
+	for _, p := range l.Packages {
+		if strings.HasSuffix(p.PkgPath, "/"+relDir) && !strings.HasSuffix(p.ID, ".test]") {
+			pkg = p
+		}
+	}
+	if pkg == nil {
+		return fmt.Errorf("package %s not loaded with syntax", relDir)
+	}
+	for i, f := range pkg.Syntax {
+		name := pkg.CompiledGoFiles[i]
+		base := filepath.Base(name)
+		if strings.HasPrefix(base, "zz_verif_") || strings.HasSuffix(base, "_test.go") {
+			continue
+		}
+		src, err := os.ReadFile(name)
+		if err != nil {
+			return err
+		}
+		edits := instrumentFile(pkg, f, src)
+		if len(edits) == 0 {
+			continue
+		}
+		sort.SliceStable(edits, func(a, b int) bool { return edits[a].off < edits[b].off })
+		var sb strings.Builder
+		pos := 0
+		for _, e := range edits {
+			if e.off < pos {
+				continue // overlapping edit: skip
+			}
+			sb.Write(src[pos:e.off])
+			sb.WriteString(e.text)
+			pos = e.end
+		}
+		sb.Write(src[pos:])
+		out := filepath.Join(outDir, strings.ReplaceAll(relDir, "/", "_")+"_"+base)
+		if err := os.WriteFile(out, []byte(sb.String()), 0o644); err != nil {
+			return err
+		}
+		overlay[name] = out
+	}
+	return nil
+}
+
+func instrumentFile(pkg *packages.Package, f *ast.File, src []byte) []edit {
+	fset := pkg.Fset
+	info := pkg.TypesInfo
+	off := func(p token.Pos) int { return fset.Position(p).Offset }
+	var edits []edit
+	pointed := map[ast.Stmt]bool{}
+	usesTime := false
+
+	// parent tracking
+	var stack []ast.Node
+	inList := func(s ast.Stmt, parent ast.Node) bool {
+		switch p := parent.(type) {
+		case *ast.BlockStmt:
+			for _, x := range p.List {
+				if x == s {
+					return true
+				}
+			}
+		case *ast.CaseClause:
+			for _, x := range p.Body {
+				if x == s {
+					return true
+				}
+			}
+		case *ast.CommClause:
+			for _, x := range p.Body {
+				if x == s {
+					return true
+				}
+			}
+		case *ast.LabeledStmt:
+			return false
+		}
+		return false
+	}
+	// enclosingListStmt finds the nearest enclosing statement that sits directly in a statement list.
+	enclosing := func() ast.Stmt {
+		for i := len(stack) - 1; i >= 1; i-- {
+			s, ok := stack[i].(ast.Stmt)
+			if !ok {
+				continue
+			}
+			if inList(s, stack[i-1]) {
+				return s
+			}
+			// a statement labelled in a list
+			if ls, ok := stack[i-1].(*ast.LabeledStmt); ok && i >= 2 && inList(ls, stack[i-2]) {
+				return ls
+			}
+		}
+		return nil
+	}
+	point := func() {
+		s := enclosing()
+		if s == nil || pointed[s] {
+			return
+		}
+		// a comm clause's communication is part of its select statement
+		pointed[s] = true
+		edits = append(edits, edit{off: off(s.Pos()), end: off(s.Pos()), text: "zzvsched.Point(); "})
+	}
+	ast.Inspect(f, func(n ast.Node) bool {
+		if n == nil {
+			stack = stack[:len(stack)-1]
+			return true
+		}
+		stack = append(stack, n)
+		switch x := n.(type) {
+		case *ast.SelectStmt:
+			point()
+			// the communications of the clauses are not separate scheduling points
+			for _, c := range x.Body.List {
+				cc := c.(*ast.CommClause)
+				stack = append(stack, x.Body, cc)
+				for _, s := range cc.Body {
+					ast.Inspect(s, func(m ast.Node) bool {
+						return instrumentInner(m, &stack, point, info, &edits, off, &usesTime, fset, src)
+					})
+				}
+				stack = stack[:len(stack)-2]
+			}
+			stack = stack[:len(stack)-1]
+			return false
+		default:
+			if !instrumentNode(n, point, info, &edits, off, &usesTime, fset, src) {
+				stack = stack[:len(stack)-1]
+				return false
+			}
+			return true
+		}
+	})
+	if len(edits) == 0 {
+		return nil
+	}
+	// import (same line as the package clause keeps line numbers)
+	pe := off(f.Name.End())
+	edits = append(edits, edit{off: pe, end: pe, text: "; import zzvsched \"" + vschedImport + "\""})
+	if usesTime {
+		edits = append(edits, edit{off: len(src), end: len(src), text: "\nvar _ time.Duration\n"})
+	}
+	return edits
+}
+
+// instrumentInner is the Inspect callback used inside select clause bodies (maintains the stack).
+func instrumentInner(n ast.Node, stack *[]ast.Node, point func(), info *types.Info, edits *[]edit, off func(token.Pos) int, usesTime *bool, fset *token.FileSet, src []byte) bool {
+	if n == nil {
+		*stack = (*stack)[:len(*stack)-1]
+		return true
+	}
+	*stack = append(*stack, n)
+	if sel, ok := n.(*ast.SelectStmt); ok {
+		point()
+		for _, c := range sel.Body.List {
+			cc := c.(*ast.CommClause)
+			*stack = append(*stack, sel.Body, cc)
+			for _, s := range cc.Body {
+				ast.Inspect(s, func(m ast.Node) bool { return instrumentInner(m, stack, point, info, edits, off, usesTime, fset, src) })
+			}
+			*stack = (*stack)[:len(*stack)-2]
+		}
+		*stack = (*stack)[:len(*stack)-1]
+		return false
+	}
+	if !instrumentNode(n, point, info, edits, off, usesTime, fset, src) {
+		*stack = (*stack)[:len(*stack)-1]
+		return false
+	}
+	return true
+}
+
+func instrumentNode(n ast.Node, point func(), info *types.Info, edits *[]edit, off func(token.Pos) int, usesTime *bool, fset *token.FileSet, src []byte) bool {
+	switch x := n.(type) {
+	case *ast.SendStmt:
+		point()
+	case *ast.UnaryExpr:
+		if x.Op == token.ARROW {
+			point()
+		}
+	case *ast.CallExpr:
+		if sel, ok := x.Fun.(*ast.SelectorExpr); ok {
+			var full string
+			if s, ok := info.Selections[sel]; ok {
+				if fn, ok := s.Obj().(*types.Func); ok {
+					full = fn.FullName()
+				}
+			} else if fn, ok := info.Uses[sel.Sel].(*types.Func); ok {
+				full = fn.FullName()
+			}
+			if isSyncFunc(full) || full == "time.Sleep" {
+				point()
+			}
+		}
+	case *ast.GoStmt:
+		p := fset.Position(x.Pos())
+		name := fmt.Sprintf("go@%s:%d", filepath.Base(p.Filename), p.Line)
+		*edits = append(*edits, edit{off: off(x.Pos()), end: off(x.Pos()) + 2, text: fmt.Sprintf("zzvsched.Go(%q, func() {", name)})
+		*edits = append(*edits, edit{off: off(x.Call.End()), end: off(x.Call.End()), text: " })"})
+	case *ast.SelectorExpr:
+		if id, ok := x.X.(*ast.Ident); ok {
+			if pn, ok := info.Uses[id].(*types.PkgName); ok && pn.Imported().Path() == "time" && timeNames[x.Sel.Name] {
+				*usesTime = true
+				*edits = append(*edits, edit{off: off(id.Pos()), end: off(id.End()), text: "zzvsched"})
+			}
+		}
+	}
+	return true
 }
